@@ -66,6 +66,8 @@ var c16Shared = map[string]string{
 	// a run that fails inside a block after assigning top-level variables, and scripts that read names they never assign
 	"leak.p":   "w = message\nq = [n, n]\nif n % 3 == 0 {\n  for i = 0; i < 2; i = i + 1 {\n    x = 1 / zero_is_nil\n  }\n}\nadd_key(out, w)\n",
 	"reader.p": "add_key(seen_w, w)\nadd_key(seen_q, q)\nadd_key(seen_x, x)\nif true {\n  w = \"mine\"\n}\nadd_key(seen_w2, w)\n",
+	// SQL with string literals that end in a backslash / hold an escaped quote / are ambiguous between both readings, chosen by the point
+	"sql.p": "if n % 3 == 0 {\n  add_key(q3, \"select * from t where p = 'C:\\\\'\")\n} elif n % 3 == 1 {\n  add_key(q3, \"select * from t where p = 'it\\\\'s' and a = 1\")\n} else {\n  add_key(q3, \"SELECT name FROM t WHERE path = 'C:\\\\' AND note = 1 -- it's\")\n}\nsql_cover(q3)\n",
 	// a callee whose builtin fails at run time with an error built from load-time data
 	"dtfail.p": "add_key(c1, 1)\nuse(\"dtbad.p\")\nadd_key(c2, 2)\n",
 	"dtbad.p":  "add_key(ts3, 1700000000)\ndatetime(ts3, \"s\", \"no-such-layout-name\")\nadd_key(after_dt, 1)\n",
@@ -135,7 +137,7 @@ func (k c16) Run(c *mon.Ctx, workload string, i int64) {
 		c.Violate("shared-set-rejected", fmt.Sprint(errs), nil)
 		return
 	}
-	runnable := []string{"grok.p", "use.p", "mix.p", "lib2.p", "usefail.p", "usefail.p", "use3.p", "use5.p", "use6.p", "zones.p", "zones.p", "dtfail.p", "dtbad.p", "leak.p", "leak.p", "reader.p", "reader.p"}
+	runnable := []string{"grok.p", "use.p", "mix.p", "lib2.p", "usefail.p", "usefail.p", "use3.p", "use5.p", "use6.p", "zones.p", "zones.p", "dtfail.p", "dtbad.p", "leak.p", "leak.p", "reader.p", "reader.p", "sql.p", "sql.p"}
 	// generated sources for the parsers
 	var genSrcs []string
 	for j := 0; j < 20; j++ {
